@@ -334,6 +334,20 @@ func (env *Env) selectField(base TV, name string) TV {
 	}
 	path, ft, ok := fieldPath(t, name)
 	if !ok {
+		// promotion through an embedded POINTER field: go through that field first
+		if stt, isStruct := under(t).(*types.Struct); isStruct {
+			for i := 0; i < stt.NumFields(); i++ {
+				f := stt.Field(i)
+				if !f.Embedded() {
+					continue
+				}
+				if p, isPtr := under(f.Type()).(*types.Pointer); isPtr {
+					if _, _, has := fieldPath(p.Elem(), name); has {
+						return env.selectField(env.selectField(base, f.Name()), name)
+					}
+				}
+			}
+		}
 		sfail("type %s has no field %s", t, name)
 	}
 	if loc != nil {
@@ -560,8 +574,11 @@ func (env *Env) binop(e *SExpr) TV {
 				if t == nil {
 					sfail("cannot compare %s", e)
 				}
-				if _, isSl := a.V.(Sl); isSl {
-					x, y := a.V.(Sl), b.V.(Sl)
+				if x, _, isSl := asSl(a.V); isSl {
+					y, _, ok := asSl(b.V)
+					if !ok {
+						sfail("cannot compare a slice with %T in %s", b.V, e)
+					}
 					eq = tAnd(tEq(x.Ref, y.Ref), tEq(x.Off, y.Off), tEq(x.Len, y.Len))
 				} else {
 					eq = valuesEqual(t, a.V, b.V)
@@ -790,11 +807,40 @@ func (env *Env) call(e *SExpr) TV {
 		// extension: the index always exists, so a fresh constant with the defining property is introduced.
 		sv := env.eval(e.Args[0])
 		sl, slH, ok := asSl(sv.V)
-		if !ok || env.inQuant > 0 {
-			sfail("firstIndex(slice, value) expected outside quantifiers")
+		if !ok {
+			sfail("firstIndex(slice, value) expected")
 		}
 		v := env.eval(e.Args[1]).V.(Sc).T
 		et := under(sv.T).(*types.Slice).Elem()
+		if env.inQuant > 0 {
+			// under a quantifier the value may depend on bound variables: the index becomes a Skolem FUNCTION of the
+			// value, defined for every value by a quantified axiom (the slice itself must not depend on bound variables)
+			if strings.Contains(sl.Ref.S+sl.Off.S+sl.Len.S, "!q") || strings.Contains(sl.Ref.S+sl.Off.S+sl.Len.S, "probe!") {
+				sfail("firstIndex under a quantifier: the slice must not depend on the bound variables")
+			}
+			hs := env.cur
+			if slH != nil {
+				hs = slH
+			}
+			n := env.child()
+			at := func(i Term) Term { return n.loadSpec(hs, elemLoc(sl, et, i)).(Sc).T }
+			x, mm := Term{"x!fi", SInt}, Term{"m!fi", SInt}
+			ck := "firstIndexF|" + at(mm).S + "|" + sl.Len.S
+			fname, seen := env.ex.fidx[ck]
+			if !seen {
+				fname = Term{env.ex.ctx.Fun(fmt.Sprintf("fidxf!%d", len(env.ex.fidx)), []Sort{SInt}, SInt), SInt}
+				env.ex.fidx[ck] = fname
+			}
+			fx := app(SInt, fname.S, x)
+			def := tAnd(tLe(intLit(0), fx), tLe(fx, sl.Len), tImp(tLt(fx, sl.Len), tEq(at(fx), x)),
+				Term{fmt.Sprintf("(forall ((m!fi Int)) %s)", tImp(tAnd(tLe(intLit(0), mm), tLt(mm, fx)), tNot(tEq(at(mm), x))).S), SBool})
+			sink := env.sink
+			if sink == nil {
+				sink = env.cur
+			}
+			sink.assume(Term{fmt.Sprintf("(forall ((x!fi Int)) %s)", def.S), SBool})
+			return mathInt(app(SInt, fname.S, v))
+		}
 		elemAt := func(i Term) Term {
 			n := env.child()
 			n.inQuant++
